@@ -277,6 +277,11 @@ def judge(w, sc, pre, fk, outcome, exc, st, inj, failed_handle=None):
         return (f"{tag}/{cls[0]}-state", f"outcome={outcome} ({type(exc).__name__ if exc else ''}); table is {cls[0]}: {cls[1]}")
     if outcome == "ok" and cls != "post":
         return (f"{tag}/success-but-{cls}/{sc['op']}", "call returned success but the table is in the pre-state")
+    # the pointer flip is the commit point: once the pointer has named the new version (any reader may have served it),
+    # whatever went wrong afterwards must not take the new version away again
+    flipped = any(ph == "after" and HINT in (target or "") and (label.endswith("os.replace") or label.startswith("s3:put")) for _n, ph, label, target in st.events)
+    if flipped and cls == "pre":
+        return (f"{tag}/reverted-after-flip/{sc['op']}", f"outcome={outcome} ({type(exc).__name__ if exc else ''}): the pointer flipped to the new version, which was then taken away again (table back in the pre-state)")
     ambiguous = isinstance(exc, AmbiguousCommitError)
     if outcome == "raise" and not interrupt and not ambiguous and cls != "pre":
         # a second (injected) error may be the one that surfaced; the rule is about the reported outcome
